@@ -109,14 +109,14 @@ Definition effect_proposal_create (known : bool) (cur proposer prop : N) (v init
   then Some [Burn (bal proposer cur) v; Mint (mk proposer B_PROPFUND CUR_OLT prop) v]
   else None.
 
-(* PROPOSAL_FUND: Validate checks currency = OLT; the handler requires a positive contribution (65cdcf3) *)
+(* PROPOSAL_FUND: Validate checks currency = OLT; the handler requires a positive contribution (782c385) *)
 Definition effect_proposal_fund (known : bool) (cur funder prop : N) (v : Z) : option (list lop) :=
   if known && is_olt cur && (0 <? v)
   then Some [Burn (bal funder cur) v; Mint (mk funder B_PROPFUND CUR_OLT prop) v]
   else None.
 
 (* PROPOSAL_WITHDRAW_FUNDS: escrow of the funder -> balance of the BENEFICIARY he names.
-   Validate checks currency = OLT; the handler requires a positive amount (7960770) *)
+   Validate checks currency = OLT; the handler requires a positive amount (19a3caa) *)
 Definition effect_proposal_withdraw (known : bool) (cur funder benef prop : N) (v : Z) : option (list lop) :=
   if known && is_olt cur && (0 <? v)
   then Some [Burn (mk funder B_PROPFUND CUR_OLT prop) v; Mint (bal benef cur) v]
